@@ -391,7 +391,7 @@ class Ctx:
                 w, c = self.known_hits.get(e["key"], (e.get("what", what), 0))
                 self.known_hits[e["key"]] = (w, c + int(payload.get("count", 1)))
                 return
-        d = os.path.join(ROOT, "replays", self.pid)
+        d = os.path.join(ROOT, "replays", self.pid if REPO == "/repo" else self.pid + "_alt")
         os.makedirs(d, exist_ok=True)
         h = hashlib.sha1((key + json.dumps(payload, sort_keys=True)).encode()).hexdigest()[:12]
         path = os.path.join(d, h + ".json")
@@ -431,8 +431,10 @@ class Ctx:
             "wall_s": round(wall, 2),
             "violations": len(self.violations),
         }
-        os.makedirs(os.path.join(ROOT, "evidence"), exist_ok=True)
-        with open(os.path.join(ROOT, "evidence", self.pid + ".json"), "w") as f:
+        # evidence describes /repo itself: a run against another checkout (VERIF_REPO, seeded changes) writes elsewhere
+        evdir = os.path.join(ROOT, "evidence") if REPO == "/repo" else os.path.join(tempfile.gettempdir(), "verif_alt_evidence")
+        os.makedirs(evdir, exist_ok=True)
+        with open(os.path.join(evdir, self.pid + ".json"), "w") as f:
             json.dump(ev, f, indent=1, sort_keys=True)
             f.write("\n")
         for k, (w, c) in sorted(self.known_hits.items()):
